@@ -110,7 +110,9 @@ def resolve(ctx, f, c):
         else:
             cs = [g for g in cands if not g.get('self_ty') or not any(p['name'] == 'self' for p in g['params'])]
             cs = [g for g in cs if not g.get('self_ty')] or cs
-        cs = [g for g in cs if len([p for p in g['params'] if p['name'] != 'self']) == len(c.get('args', []))]
+        # `Type::method(value, ..)`: a method called by path takes its receiver as the first argument
+        cs = [g for g in cs if len([p for p in g['params'] if p['name'] != 'self']) == len(c.get('args', []))
+              or (qual and any(p['name'] == 'self' for p in g['params']) and len(g['params']) == len(c.get('args', [])))]
     else:
         r = vt.unvar(recv)
         if not (isinstance(r, dict) and r.get('k') == 'atom' and r.get('root') == 'self' and not r.get('path')):
@@ -178,8 +180,14 @@ def expandable(g, stop=()):
 
 def _env(g, c):
     params = [p['name'] for p in g['params'] if p['name'] != 'self']
-    env = dict(zip(params, c.get('args', [])))
-    if any(p['name'] == 'self' for p in g['params']) and c.get('recv') is not None:
+    has_self = any(p['name'] == 'self' for p in g['params'])
+    args = list(c.get('args', []))
+    if has_self and c.get('recv') is None and len(args) == len(params) + 1:
+        env = dict(zip(params, args[1:]))      # `Type::method(value, ..)`
+        env['self'] = args[0]
+        return env
+    env = dict(zip(params, args))
+    if has_self and c.get('recv') is not None:
         env['self'] = c['recv']
     return env
 
